@@ -162,14 +162,14 @@ def check_insert(case, ctx):
     if has_valid:
         ctx.nt((spec["times"], spec["leadtimes"], [d["fcst"] for d in spec["inputs"]], [d["obs"] for d in spec["inputs"]],
                 dim, case["victims"], case["fills"]))
-        ctx.sample({"insert": dim, "victims": case["victims"], "metrics": case["metrics"][:8],
+        ctx.sample({"insert": dim, "victims": case["victims"], "metrics": case.get("metrics", [case.get("metric")])[:8],
                     "X_dims": [ds.times, ds.leads, ds.ids], "Xplus_dims": [ds2.times, ds2.leads, ds2.ids],
                     "fcst_Xplus": [d["fcst"] for d in spec2["inputs"]]})
     sub = {k: case[k] for k in ("spec", "dim", "victims", "fills", "pos", "agg")}
     new_index = {"location": (ds2.ids.index(777) if 777 in ds2.ids else None),
                  "time": (ds2.times.index(86400 * 20000 + 3600 * 7) if (86400 * 20000 + 3600 * 7) in ds2.times else None),
                  "leadtime": (ds2.leads.index(999.0) if 999.0 in ds2.leads else None)}[dim]
-    for name in case["metrics"]:
+    for name in ([case["metric"]] if case.get("metric") else case["metrics"]):
         args = mrun.args_for(spec, name)
         if args is None:
             ctx.label("metric-not-applicable")
@@ -219,6 +219,7 @@ _counter = [0]
 
 
 def check_encode(case, ctx):
+    case = dict({"metric": "mae", "axis": "no"}, **case)
     import numpy as np
     import verif.input
     from .. import drive, mat
